@@ -24,7 +24,7 @@ typedef struct {
 
 typedef struct {
   uint64_t events, switches, preemptions, regions, nested_regions, sections_handed, max_sections_one_thread, criticals, tasks_created,
-      accesses, range_accesses, races, idle_threads, shared_granules, forced_choices, barriers, ws_chunks;
+      accesses, range_accesses, races, idle_threads, shared_granules, forced_choices, barriers, ws_chunks, tls_accesses;
   uint64_t interleaving_hash;
   int deadlock, budget_exceeded;
 } sched_stats_t;
